@@ -244,6 +244,23 @@ def run(ctx, rep):
                 rep.violate(Violation('C13.R7', s7.where(),
                     'MU_WAITING can be left set although this thread queued nobody and the queue is not known to be non-empty: the next release takes the slow path, gives up the lock while it is still using the mutex, and - with no queued waiter as a user - another thread can acquire, find itself the last user and free the mutex under it [entry %s, via %s]' % (r.entry, r.ctx()),
                     site='%s/waiting-without-waiter' % s7.fn.name))
+    # ... and the other direction: a thread that drops the spinlock knowing the queue to be empty leaves MU_WAITING clear
+    for r in eng.records:
+        # (not while the thread still holds the lock: the scanning unlocker parks the queue in a local list and drops the spinlock, holding the
+        # write lock, before it restores the queue)
+        if r.kind == 'trans' and r.wc.name == 'mu' and r.pairs and r.spin == 1 and r.new_spin == 0 and r.queue == 0 and r.new_hold not in ('W', 'R'):
+            s7 = r.site(eng.wrappers)
+            bad = next((n for e, n in r.pairs if n & WT), None)
+            key = (s7.fn.name, s7.id, 'empty', bad is None, r.entry)
+            if key in seen7:
+                continue
+            seen7.add(key)
+            rep.instance('C13.R7', 'spinlock released at %s with the queue known empty: MU_WAITING left clear=%s [%s]' % (s7.where(), bad is None, r.entry))
+            rep.oblig('C13.R7', bad is None)
+            if bad is not None:
+                rep.violate(Violation('C13.R7', s7.where(),
+                    'the spinlock is released with the waiter queue known to be empty but MU_WAITING still set: every later release takes the slow path, gives up the lock while it is still using the mutex and - with no queued waiter as a user - another thread can acquire, find itself the last user and free the mutex under it [entry %s, via %s]' % (r.entry, r.ctx()),
+                    site='%s/waiting-kept-on-empty-queue' % s7.fn.name))
     rep.floor('C13.R7', 3)
     check_dequeuers(ctx, mod, eng, runs, rep)
     rep.assumptions += ['pooled waiter structs (nsync_waiter_new_) are never freed, so touching them after the release is safe',
